@@ -74,7 +74,12 @@ def run_generator(case: dict):
     seed_globals(case["np_seed"], case["py_seed"])
     fn = GENERATORS_MAP[case["gen"]]
     kw = dict(case.get("kw", {}))
-    return fn(np.array([case["r"], case["c"]]), **kw)
+    form = case.get("shape_form") or "int64"
+    if form in ("tuple", "list"):
+        shape = (case["r"], case["c"]) if form == "tuple" else [case["r"], case["c"]]
+    else:
+        shape = np.array([case["r"], case["c"]], dtype=form)
+    return fn(shape, **kw)
 
 
 # ----------------------------------------------------------------------------------------------
